@@ -71,10 +71,6 @@ def parseOp (ws : List String) : Option Op :=
   | ["clip", a, b, c] => do pure (.clip (← a.toNat?) (← b.toNat?) (← c.toNat?))
   | _ => none
 
-def toRefItem : SliceItem → NArr.Item
-  | .index i => .index i
-  | .range r => .range r.start r.stop r.step
-
 def liftView (t : TState) (r : Except Err View) : Except Err TState :=
   r.map (fun v => { t with view := v })
 
